@@ -14,13 +14,25 @@ SMOOTH = ["exp", "log", "ln", "sqrt", "sin", "cos", "atan", "pow", "sci", "pi", 
 RULE = """Smooth models from modelgen.gen_model (1-3 states, 0-3 parameters, 0-4 intermediates; functions exp log sqrt sin cos atan, powers,
 ContinuousConditional) into whose rate equations k = 0, 1, 2 or 3 removable singular factors are planted, as a factor or as a summand:
 (x-a)/(exp(x-a)-1), sin(x-a)/(x-a), (exp((x-a)/2)-1)/(x-a), 0.32(x-a)/(1-exp(-(x-a)/10)), (x-a)/(x-a), with a in {0, 1, 2, -1}, in one
-or several states; every 4th model additionally gets the infinite singularity 1/(x-4).  new = ode.remove_singularities(); NumPy modules
+or several states; every 4th model additionally gets the infinite singularity 1/(x-4).  Every 3rd model (GenOpts.singular_param, 1-3
+parameters, k = 1, 1, 2 in rotation) has PARAMETER-VALUED singular points instead: `a` is the name of a declared parameter (the first
+factor always, a second one 2 in 3), e.g. sin(v - k1)/(v - k1) with parameters(k1=0.13), so the state sits on the singular point when
+it equals the value the parameter has at that input (defaults 0.13, 2*pi, 1/4, sqrt(2), -(1.5), 12.0 ... and the varied values of the
+sampled inputs).  new = ode.remove_singularities(); NumPy modules
 are generated for both.  Cases: (model, regular point) - every monitored value of `new` must equal the original's (rtol 1e-9), at 4
-points per model; (model, singular point: the state exactly on a, the others random) - every value of `new` that depends on the factor
+points per model; (model, singular point: the state exactly on a - for a parameter-valued point exactly on the parameter's value at that
+input -, the others random) - every value of `new` that depends on the factor
 must be finite and equal the two-sided limit, computed by the reference evaluator from Richardson-extrapolated one-sided limits (steps 2e-6..5e-7, two step sizes and both sides must agree to 1e-7, otherwise the point is skipped; comparison rtol 1e-6, atol 1e-6);
 (model, infinite point x = 4) - `new` must still be non-finite there (untouched).  A regular-point value that is an integer multiple (2..6) of the original's
-for an expression with >= 2 singular factors is reported as double-counted.  Non-trivial: k >= 1; distinct by sha1(text,
+for an expression with >= 2 singular factors is reported as double-counted; so is a value m x limit (m = 2..6) at the ONLY singular point
+of an expression when the expression is multiplied by the same m at a regular input (one point counted m times).  Sub-kind of a
+singular-point failure: several-singularities when the expression has >= 2 distinct removable points (literal or parameter-valued: the
+territory of the listed sum-of-Conditionals defect), else parameter-valued-point when its only removable point is the value of a
+parameter, else one-singularity.  Non-trivial: k >= 1; distinct by sha1(text,
 point)."""
+
+
+PARAM_SUB = "parameter-valued-point"
 
 
 def cases(tier, seed, focus):
@@ -29,20 +41,71 @@ def cases(tier, seed, focus):
         k = seed * 100003 + i
         yield {"mseed": k, "opts": {"singular": [1, 2, 0, 3, 1, 2][i % 6], "infinite_sing": i % 4 == 3, "features": SMOOTH, "n_states": [1, 3], "n_params": [0, 3], "n_inter": [0, 4], "depth": 2,
                                     "annotations": False}, "npts": 4, "tags": ["C16"]}
+        if i % 2 == 1:  # every 3rd model: the singular point is the value of a parameter (1, 1, 2 factors in rotation; 3 symbolic points cost sympy up to 40 s)
+            j = i // 2
+            yield {"mseed": k + 50000017, "opts": {"singular": [1, 1, 2][j % 3], "singular_param": True, "infinite_sing": j % 4 == 3, "features": SMOOTH, "n_states": [1, 3], "n_params": [1, 3],
+                                                   "n_inter": [0, 4], "depth": 2, "annotations": False}, "npts": 4, "tags": ["C16"]}
 
 
 def find_singular(ref):
-    """(state, a, assignment, kind) recovered from the text: denominators vanishing at a state value"""
+    """(state, a, assignment) recovered from the text: denominators vanishing at a state value; a is a float (literal) or the
+    NAME of a parameter (the singular point is wherever the state equals that parameter's value)"""
     import re
 
+    A = r"(-?[\d.]+|[A-Za-z_]\w*)"
     out = []
     for name, a in ref.assigns.items():
         txt = a.expr_text.replace(" ", "")
         for s in ref.states:
-            for m in re.finditer(r"/\(exp\(" + re.escape(s) + r"(?:-(-?[\d.]+))?\)-1\)|/\(" + re.escape(s) + r"-(-?[\d.]+)\)|/" + re.escape(s) + r"(?![\w(])|/\(1-exp\(-0\.1\*\(" + re.escape(s) + r"-(-?[\d.]+)\)\)\)", txt):
+            for m in re.finditer(r"/\(exp\(" + re.escape(s) + r"(?:-" + A + r")?\)-1\)|/\(" + re.escape(s) + r"-" + A + r"\)|/" + re.escape(s) + r"(?![\w(])|/\(1-exp\(-0\.1\*\(" + re.escape(s) + r"-" + A + r"\)\)\)", txt):
                 val = next((g for g in m.groups() if g is not None), "0")
-                out.append((s, float(val), name))
-    return sorted(set(out))
+                if val in ref.params:
+                    out.append((s, val, name))
+                elif not (val[0].isalpha() or val[0] == "_"):  # `1/(x - y)` with y a state / intermediate: a moving point, not a case of this oracle
+                    out.append((s, float(val), name))
+    return sorted(set(out), key=lambda x: (x[0], isinstance(x[1], str), x[1], x[2]))
+
+
+def point_value(a, pt):
+    """the singular point: a literal, or the value the parameter has at this input"""
+    return pt["params"][a] if isinstance(a, str) else a
+
+
+def literal_twin(text, ref, name, a, av):
+    """the same model with the literal value av written in place of the parameter `a` inside the expression of `name` (the numeric-point
+    form of the same singular factor: `sin(v - 0.13)/(v - 0.13)` for `sin(v - k1)/(v - k1)`); None when the expression cannot be located"""
+    import re
+
+    old = ref.assigns[name].expr_text
+    if text.count(old) != 1:
+        return None
+    lit = repr(float(av)) if av >= 0 else f"({float(av)!r})"
+    new = re.sub(r"(?<![\w.])" + re.escape(a) + r"(?![\w(])", lit, old)
+    return None if new == old else text.replace(old, new)
+
+
+def twin_removed(text, ref, name, a, pt, want):
+    """does remove_singularities put the limit at this input when the point is written as a literal?  True / False (not removed, wrong value,
+    or an exception: the numeric-point behaviour, whatever it is) / None (no twin)"""
+    tw = literal_twin(text, ref, name, a, pt["params"][a])
+    if tw is None:
+        return None
+    mod = None
+    try:
+        with cm.quiet():
+            mod = be.build(cm.load(tw).remove_singularities(), "numpy")
+        v = mod.monitor_values(pt)[name]
+        return bool(math.isfinite(v) and cm.close(v, want, 1e-6, 1e-6))
+    except Exception:  # noqa: BLE001
+        return False
+    finally:
+        if mod is not None:
+            mod.close()
+
+
+def abs_of_state(ref, name, s):
+    """abs(...) of something that mentions the state s, in the expression of `name` itself"""
+    return mg._contains(ref.assigns[name].ast, lambda n: n[0] == "call" and n[1] in ("abs", "Abs") and any(mg._contains(x, lambda m: m[0] == "var" and m[1] == s) for x in n[2]))
 
 
 def check(case):
@@ -85,13 +148,30 @@ def check(case):
     per_assign = {}
     for s, a, name in removable:
         per_assign.setdefault(name, set()).add((s, a))
+    def multiplied_everywhere(name, mlt):
+        """is `name` multiplied by mlt at a regular input as well?  (the listed sum-of-Conditionals defect: one Conditional per entry of
+        sympy.singularities, which spells one point twice - `kf` and `1.0*kf` - when a factor has a float coefficient)"""
+        cands = [cm.restrict_point(rp, ref) for rp in c["points"]]
+        # a stored failure carries only the singular input: also try it with the states moved off the singular points
+        cands += [{"t": rp["t"], "states": {k: v + d for k, v in rp["states"].items()}, "params": rp["params"]} for rp in cands[:2] for d in (0.37, -0.61, 1.3)]
+        for rp in cands:
+            if any(abs(rp["states"][s_] - point_value(a_, rp)) < 1e-3 for s_, a_, _ in sing):
+                continue
+            try:
+                o_v, n_v = orig.monitor_values(rp)[name], new.monitor_values(rp)[name]
+            except be.Stage:
+                continue
+            if math.isfinite(o_v) and abs(o_v) > 1e-9:
+                return cm.close(n_v, mlt * o_v, 1e-9, 1e-12)
+        return False
+
     want_mode = c.get("mode")
     # regular points -------------------------------------------------------------------------------------
     mode = "regular"
     if want_mode in (None, "regular"):
         for pt in c["points"]:
             pt = cm.restrict_point(pt, ref)
-            if any(abs(pt["states"][s] - a) < 1e-3 for s, a, _ in sing):
+            if any(abs(pt["states"][s] - point_value(a, pt)) < 1e-3 for s, a, _ in sing):
                 continue
             try:
                 a_vals = orig.monitor_values(pt)
@@ -122,8 +202,9 @@ def check(case):
         for base in base_pts:
             base = cm.restrict_point(base, ref)
             pt = {"t": base["t"], "states": dict(base["states"]), "params": dict(base["params"])}
-            pt["states"][s] = a
-            if any(s2 != s and abs(pt["states"][s2] - a2) < 1e-3 for s2, a2, _ in sing) or any(s2 == s and a2 != a and abs(a - a2) < 1e-3 for s2, a2, _ in sing):
+            av = point_value(a, pt)  # parameter-valued point: the state sits exactly on the value the parameter has at this input
+            pt["states"][s] = av
+            if any(s2 != s and abs(pt["states"][s2] - point_value(a2, pt)) < 1e-3 for s2, a2, _ in sing) or any(s2 == s and a2 != a and abs(av - point_value(a2, pt)) < 1e-3 for s2, a2, _ in sing):
                 continue
             deps = [n for n in ref.assigns if name in ref.closure(n)]
             if a == 4.0:
@@ -146,7 +227,7 @@ def check(case):
                         vals = []
                         for hh in (h, h / 2):
                             st = dict(pt["states"])
-                            st[s] = a + sgn * hh
+                            st[s] = av + sgn * hh
                             v, frag = ref.evaluate(pt["t"], st, pt["params"], names=deps)
                             vals.append(v)
                         side.append({k: 2 * vals[1][k] - vals[0][k] for k in deps})
@@ -170,13 +251,30 @@ def check(case):
             nonfin = {k: b_vals[k] for k in deps if not math.isfinite(b_vals[k])}
             wrong = {k: b_vals[k] for k in deps if math.isfinite(b_vals[k]) and not cm.close(b_vals[k], lim[k], 1e-6, 1e-6)}
             nsing = len(per_assign.get(name, ()))
-            sub = "one-singularity" if nsing == 1 else "several-singularities"
+            # an expression with several removable singular points is the territory of the listed sum-of-Conditionals defect whatever the
+            # points are; the ONLY removable point of an expression gets its own sub-kind when it is the value of a parameter
+            sub = "several-singularities" if nsing != 1 else PARAM_SUB if isinstance(a, str) else "one-singularity"
+            at = f"{s} = {a} = {av!r}" if isinstance(a, str) else f"{s} = {a}"
+            if sub == PARAM_SUB and (nonfin or wrong):
+                # is it the point being a parameter's value that matters?  The same expression with the literal in place of the parameter:
+                # when that is not repaired either, the failure is the numeric-point one (one-singularity), else it is specific to parameter-valued points
+                if twin_removed(text, ref, name, a, pt, lim[name]) is False:
+                    sub = "one-singularity"
+                    at += f" (and just so with the literal {av!r} written in place of {a})"
+                else:
+                    at += f" (repaired when the literal {av!r} is written in place of {a})"
             if nonfin:
-                add(f"singular-point-not-removed:{sub}", f"{sorted(nonfin)[:3]} still non-finite at {s} = {a} after remove_singularities", [pt], {k: lim[k] for k in nonfin}, nonfin, f"{name} = {ref.assigns[name].expr_text[:160]}")
+                add(f"singular-point-not-removed:{sub}", f"{sorted(nonfin)[:3]} still non-finite at {at} after remove_singularities", [pt], {k: lim[k] for k in nonfin}, nonfin, f"{name} = {ref.assigns[name].expr_text[:160]}")
                 break
             if wrong:
-                dbl = nsing >= 2 and name in wrong
-                add("double-counted-singularity" if dbl else f"wrong-limit:{sub}", f"value of {sorted(wrong)[:3]} at the removable singular point {s} = {a} is not the limit", [pt], {k: lim[k] for k in wrong}, wrong,
+                dbl, extra = nsing >= 2 and name in wrong, ""
+                if not dbl and name in wrong:  # ONE singular point (of one or several factors) counted several times?
+                    mlt = next((m_ for m_ in range(2, 7) if cm.close(wrong[name], m_ * lim[name], 1e-6, 1e-6)), None)
+                    if mlt and multiplied_everywhere(name, mlt):
+                        dbl, extra = True, f" but {mlt} x the limit (the expression is multiplied by {mlt} at regular inputs too: the one singular point is counted {mlt} times)"
+                if not dbl and sub == PARAM_SUB and name in wrong and av < 0 and abs_of_state(ref, name, s):
+                    sub += ":abs-of-state-at-negative-point"  # sympy.limit at a symbolic point treats Abs(state) as if the point were positive
+                add("double-counted-singularity" if dbl else f"wrong-limit:{sub}", f"value of {sorted(wrong)[:3]} at the removable singular point {at} is not the limit" + extra, [pt], {k: lim[k] for k in wrong}, wrong,
                     f"{name} = {ref.assigns[name].expr_text[:160]}")
                 break
     orig.close()
